@@ -167,6 +167,8 @@ pub fn writer_formats<T: Flt>() -> Vec<FloatFmt<T>> {
             ("w_no_exponent_notation", B::new().no_exponent_notation(true).build_strict())
             ("w_no_exponent_without_fraction", B::new().no_exponent_without_fraction(true).build_strict())
             ("w_all_signs_expnot", B::new().required_mantissa_sign(true).required_exponent_sign(true).required_exponent_notation(true).build_strict())
+            ("w_noexpnofrac_reqdigits", B::new().no_exponent_without_fraction(true).required_digits(true).build_strict())
+            ("w_reqdigits_reqexpnot", B::new().required_digits(true).required_exponent_notation(true).build_strict())
         );
     }
     #[cfg(all(feature = "format", feature = "radix"))]
